@@ -465,12 +465,19 @@ func ExecLoop(c LoopCase) hx.Verdict {
 		f.Step = step
 		return f
 	}
+	tailRan := false
 	res := func() hx.Verdict {
 		for i := 0; i < len(got) || i < len(want); i++ {
 			if i >= len(got) {
 				return fail(i, "loop-dispatch", "command %d %v was never executed (executed %d of %d; loop error %v)", i, want[i], len(got), len(want), loopErr)
 			}
 			if i >= len(want) {
+				if badTail && i == len(want) && len(got) == len(want)+1 && (got[i].Cmd == "rec" || got[i].Cmd == "r2") {
+					// "terminates with arguments or an error": the unterminated tail was taken as
+					// arguments and its command ran - allowed, its arguments are not fixed
+					tailRan = true
+					break
+				}
 				return fail(i, "loop-dispatch", "extra command executed: %v (the model has %d commands)", got[i], len(want))
 			}
 			g, w := got[i], want[i]
@@ -485,8 +492,8 @@ func ExecLoop(c LoopCase) hx.Verdict {
 			}
 		}
 		if badTail {
-			if loopErr == nil && scopeErrs == 0 {
-				return fail(len(got), "loop-syntax-error-surfaced", "the input ends inside an unterminated quoted argument (%q): the loop neither returned an error nor recorded one on its scope", string(c.Tail))
+			if loopErr == nil && scopeErrs == 0 && !tailRan {
+				return fail(len(got), "loop-syntax-error-surfaced", "the input ends inside an unterminated quoted argument (%q): splitting must end with arguments or an error, but the loop neither ran the command nor returned an error nor recorded one on its scope", string(c.Tail))
 			}
 		} else if unknown != (loopErr != nil || scopeErrs > 0) {
 			return fail(len(got), "loop-unknown-command", "loop error %v, %d scope errors; the model has unknown command = %v", loopErr, scopeErrs, unknown)
